@@ -14,7 +14,7 @@ import ast
 from sa import sym, boolalg, template
 from sa.sym import show, num, num_value, atoms_of
 from sa.cfg import CFG, enclosing_stmts
-from sa.model import dotted, own_calls, own_nodes, callee_attr
+from sa.model import dotted, own_calls, own_nodes, callee_attr, inline_helpers
 from . import common
 
 PYR = "toasty.pyramid"
@@ -59,6 +59,7 @@ def run(run):
     common.option_forwarding(run, "C17.R4", "add_place_for_toast", {FT, BLD},
                              "so the index_rel.wtml of a TOAST pyramid comes out without (or with) a Place regardless of what was asked for")
     _r5_fits_tiler(run)
+    _r5_no_tiling_into_existing(run)
     _r5_roundtrip(run)
     # the description handed back on the reuse path is what the directory's index says *now*: no remembered copy that can
     # survive a rewrite of the directory
@@ -693,3 +694,46 @@ def _r5_roundtrip(run):
                   % (len(lists), sorted(lists)))
     except _Undecided as ex:
         run.undecided("C17.R5", g, None, "index writer / loader round trip: %s" % ex, kind="index-roundtrip-shape")
+
+
+
+def _r5_no_tiling_into_existing(run):
+    """FitsTiler.tile never generates tiles into an output directory that already exists: it removes it first (override), reuses
+    it, or refuses.  Tiles of an earlier, deeper or otherwise different run would stay on disk next to an index that describes
+    only the new ones.  Path query on the CFG of tile(): from the true arm of the `isdir(out_dir)` test no tiling step is
+    reachable without passing the removal of the directory."""
+    project = run.project
+    f = project.fn(FT + ".FitsTiler.tile")
+    TIL = ("_tile_hips", "_tile_toast", "_tile_tan")
+    f = inline_helpers(project, f, lambda owner, call: None if callee_attr(call) in TIL else common.resolve_callee(project, owner, call))
+    cfg = CFG(f.node)
+    tiling = [n for n in cfg.nodes for cc in cfg.calls_at(n) if callee_attr(cc) in TIL]
+    removal = {n.id for n in cfg.nodes for cc in cfg.calls_at(n) if (dotted(cc.func) or "").split(".")[-1] in ("rmtree", "removedirs", "rmdir")}
+    tests = [x for x in own_nodes(f.node) if isinstance(x, ast.If) and any(
+        isinstance(c, ast.Call) and (dotted(c.func) or "") in ("os.path.isdir", "os.path.exists") and c.args and isinstance(c.args[0], (ast.Name, ast.Attribute))
+        and ast.unparse(c.args[0]).endswith("out_dir") for c in ast.walk(x.test))]
+    tests = [x for x in tests if not isinstance(x.test, ast.BoolOp)] or tests
+    if not tiling:
+        run.undecided("C17.R5", f, None, "FitsTiler.tile: no call of the tiling steps found", kind="existing-dir")
+        return
+    if not tests:
+        run.undecided("C17.R5", f, tiling[0].ast, "FitsTiler.tile does not test whether the output directory exists", kind="existing-dir")
+        return
+    t = tests[0]
+    negated = isinstance(t.test, ast.UnaryOp) and isinstance(t.test.op, ast.Not)
+    arm = t.orelse if negated else t.body
+    if not arm or isinstance(t.test, ast.BoolOp):
+        run.undecided("C17.R5", f, t, "the test of the existing output directory is not a plain if / if-not", kind="existing-dir")
+        return
+    start = cfg.node_of_stmt(arm[0])
+    if start is None:
+        run.undecided("C17.R5", f, t, "cannot locate the branch taken for an existing output directory", kind="existing-dir")
+        return
+    reach = cfg.reachable(start.id, avoid=removal, skip_labels=("exc",)) | {start.id}
+    hit = [n for n in tiling if n.id in reach]
+    if hit:
+        run.violated("C17.R5", f, hit[0].ast, "FitsTiler.tile can reach %s with the output directory already existing and not removed: tiles left by an earlier run (deeper levels, "
+                     "other images) stay on disk beside an index that describes only the new ones" % ", ".join(sorted({callee_attr(cc) for n in hit for cc in cfg.calls_at(n) if callee_attr(cc) in TIL})),
+                     kind="tiles-into-existing-dir")
+    else:
+        run.holds("C17.R5", f, t, "the tiling steps are reached from an existing output directory only through its removal (reuse and refusal return / raise before them)")
